@@ -1080,6 +1080,12 @@ def main():
         print(open(path).read())
         return 0
     os.environ.setdefault("VERIF_TIER", tier)
+    # one check at a time: the checks share the Coq build directory, the generated tables and the stage caches; two
+    # invocations started side by side take turns instead of writing over each other
+    import fcntl
+    os.makedirs(vlib.CACHE, exist_ok=True)
+    lock = open(os.path.join(vlib.CACHE, "check.lock"), "w")
+    fcntl.flock(lock, fcntl.LOCK_EX)
     global CUR_TIER
     CUR_TIER = tier
     cov = {}
